@@ -8,6 +8,7 @@ import Pyunicorn.Lemmas.EventsF32
 import Pyunicorn.Lemmas.EventsF64
 import Pyunicorn.Lemmas.EventsF64Matrix
 import Pyunicorn.Lemmas.EventsFl
+import Pyunicorn.Lemmas.EventsFlScale
 import Pyunicorn.Lemmas.EventsNpQuantile
 /-!
 # C16 — Event synchronisation / coincidence follow their counting rules
@@ -2151,5 +2152,42 @@ example :
         3602879701896397 / 9007199254740992] none (3602879701896397 / 36028797018963968)
       = .val (1 / 2) (1 / 2) 1 := by
   constructor <;> decide +kernel
+
+/-- **IEEE rounding commutes with a power-of-two change of unit** (all rationals, all exponents;
+the model has no under- / overflow) -/
+theorem ieee_pow2_commutes (x : Rat) (j : Int) :
+    rn53s ((2 : Rat) ^ j * x) = (2 : Rat) ^ j * rn53s x := rn53s_scale x j
+
+/-- **change of the time unit by a power of two, in IEEE double, for *all* time stamps**:
+multiplying every time stamp, the lag and the window by `2^j` leaves the guards, both counts and
+the norm of the rounded path unchanged — the call returns bit-identical doubles, also where the
+operations inside the counting round (no lattice hypothesis).  With an unbounded window
+(`tm = none`) this is the rescaling clause of the statement at float level. -/
+theorem es_float_pow2_scale (j : Int) (ts1 ts2 : List Rat) (bx by_ : List Bool) (tm : Option Rat)
+    (lag : Rat) :
+    esFl (ts1.map ((2 : Rat) ^ j * ·)) bx (ts2.map ((2 : Rat) ^ j * ·)) by_
+        (tm.map ((2 : Rat) ^ j * ·)) ((2 : Rat) ^ j * lag)
+      = esFl ts1 bx ts2 by_ tm lag := by
+  unfold esFl esSeriesR
+  rw [select_map, select_map]
+  exact esR_pow2 j _ _ tm lag
+
+/-- the general form: any rounding that commutes with the multiplication by `k > 0` -/
+theorem es_float_scale (fl : Rat → Rat) (k : Rat) (hk : 0 < k) (hfl : ∀ x, fl (k * x) = k * fl x)
+    (ex ey : List Rat) (tm : Option Rat) (lag : Rat) :
+    esR fl (ex.map (k * ·)) (ey.map (k * ·)) (tm.map (k * ·)) (k * lag) = esR fl ex ey tm lag :=
+  esR_scale fl k hk hfl ex ey tm lag
+
+/-- non-vacuity: the rounding example above, time unit divided by `2²⁰` -/
+example :
+    esR rn53s ([3602879701896397 / 18014398509481984, 1351079888211149 / 4503599627370496,
+        3602879701896397 / 9007199254740992].map ((2 : Rat) ^ (-20 : Int) * ·))
+       ([3602879701896397 / 36028797018963968, 3602879701896397 / 18014398509481984,
+        3602879701896397 / 9007199254740992].map ((2 : Rat) ^ (-20 : Int) * ·)) none
+       ((2 : Rat) ^ (-20 : Int) * (3602879701896397 / 36028797018963968))
+      = .val (1 / 2) (1 / 2) 1 := by
+  rw [show (none : Option Rat) = (none : Option Rat).map ((2 : Rat) ^ (-20 : Int) * ·) from rfl,
+    esR_pow2]
+  decide +kernel
 
 end Pyunicorn.Events
